@@ -237,6 +237,12 @@ class C15(Prop):
                 # set-up finishes somewhere inside the history: before that nothing is unsupported
                 k = rng.randrange(0, len(hist) + 1)
                 h2 = [[0, a] for a in hist[:k]] + [[1, unsup]] + [[0, a] for a in hist[k:]]
+                if unsup and rng.random() < 0.5:
+                    # a further set-up later on: kinds it gets answered are supported from then on (announcements seen while a
+                    # kind was unsupported must not count as refreshes of it)
+                    j = rng.randrange(k + 1, len(h2) + 1)
+                    again = [c for c in unsup if rng.random() < 0.5]
+                    h2 = h2[:j] + [[1, again]] + h2[j:] + [[0, a] for a in hist[-2:]]
                 cases.append({"kind": "hist:" + ("dispatch" if i % 2 else "sensor-frame"), "hist": h2})
             elif i % 3 == 1 and i % 2:
                 # an ecoMAX and an ecoSTER behind the same connection: each keeps its own record and is asked itself
